@@ -151,6 +151,7 @@ def check(ctx):
                             'the output writers')
     from .C10 import check_node_identity
     check_node_identity(ctx, ('utils.output_utils', 'taxonomy.taxonomy_tree'), floor=1)
+    check_serialised_tree_carries_every_table(ctx)
 
 
 # ----------------------------------------------------------------------
@@ -1383,3 +1384,83 @@ def check_config_not_edited(ctx, rule='R-SAMEVAL/config-as-recorded'):
                'after its copy for the record was taken: the run uses a '
                'setting the recorded configuration (and the outputs whose '
                'layout follows it) do not show')
+
+
+def check_serialised_tree_carries_every_table(
+        ctx, rule='R-AGREE/serialised-tree-complete'):
+    """the taxonomy written into the outputs (`to_str`, also with
+    drop_cells) is the tree the CSV writer and any later reader translate
+    labels with.  Whatever top-level table of the tree data the class
+    itself consults (`self._data['name_mapper']`, `'hierarchy_mapper' in
+    self._data`, ...) has to be in what to_str serialises: either the
+    whole of `self._data` (or a copy of it) is dumped, or the dict that is
+    built names every one of those keys."""
+    db = ctx.db
+    ci = db.cls('taxonomy.taxonomy_tree:TaxonomyTree')
+    consulted = set()
+    methods = [f for f in db.iter_functions()
+               if f.cls is ci]
+
+    def is_data(e):
+        return isinstance(e, ast.Attribute) and e.attr == '_data' \
+            and isinstance(e.value, ast.Name) and e.value.id == 'self'
+
+    for f in methods:
+        for x in ast.walk(f.node):
+            if isinstance(x, ast.Subscript) and is_data(x.value) \
+                    and isinstance(x.slice, ast.Constant) \
+                    and isinstance(x.slice.value, str):
+                consulted.add(x.slice.value)
+            elif isinstance(x, ast.Compare) and len(x.ops) == 1 \
+                    and isinstance(x.ops[0], (ast.In, ast.NotIn)) \
+                    and is_data(x.comparators[0]) and isinstance(
+                        x.left, ast.Constant) and isinstance(
+                            x.left.value, str):
+                consulted.add(x.left.value)
+    fi = db.find_method(ci, 'to_str')
+    if fi is None or len(consulted) < 3:
+        raise AnalysisError('TaxonomyTree.to_str / the tables the class '
+                            f'consults were not recognised ({consulted})')
+    cfg = cfg_of(fi)
+    rd = rd_of(fi)
+    n = 0
+    for node in cfg.nodes:
+        if node.id not in rd.live:
+            continue
+        for c in cfg.calls_in(node):
+            if getattr(c.func, 'attr', getattr(c.func, 'id', None)) \
+                    != 'dumps' or not c.args:
+                continue
+            arg = c.args[0]
+            while isinstance(arg, ast.Call) and arg.args:
+                arg = arg.args[0]       # clean_for_json(out_dict)
+            if not isinstance(arg, ast.Name):
+                continue
+            for d in rd.reaching(arg.id, node.id):
+                n += 1
+                v = d.value
+                whole = v is not None and (is_data(v) or (
+                    isinstance(v, ast.Call) and v.args
+                    and is_data(v.args[0]) and getattr(
+                        v.func, 'attr', getattr(v.func, 'id', None))
+                    in ('deepcopy', 'copy', 'dict')))
+                missing = set()
+                if not whole:
+                    named = set()
+                    for x in ast.walk(fi.node):
+                        if isinstance(x, ast.Constant) and isinstance(
+                                x.value, str):
+                            named.add(x.value)
+                    missing = consulted - named
+                ok = whole or not missing
+                ctx.touch(fi)
+                ctx.ob(rule, f'{fi.qual}:{arg.id}@{d.node}', fi.loc(c), ok,
+                       'the whole tree data is serialised' if whole else (
+                           'every table the class consults is named' if ok
+                           else f'to_str can serialise a dict built key by '
+                           f'key that never names {sorted(missing)}, which '
+                           'the class itself consults: the tree written '
+                           'into the outputs has lost that table, and the '
+                           'CSV / a later reader translate without it'))
+    ctx.floor(rule, 2)
+    return n
